@@ -275,6 +275,30 @@ pub fn cases(tier: Tier) -> Vec<Case> {
       out.push(Case { family: "match-enum-shared-names", def: d1.to_string(), calls, locus: format!("match-enum-shared-names:{}", fam) });
     }
   }
+  // (H) literal arms of other kinds: strings, booleans, typed integers
+  {
+    struct Fam { name: &'static str, define: &'static str, subjects: Vec<&'static str>, arms: Vec<(&'static str, Option<usize>, i64)> }
+    let fams = vec![
+      Fam { name: "string", define: "{n} := {v}", subjects: vec!["\"a\"", "\"b\"", "\"c\""], arms: vec![("\"a\" => 1", Some(0), 1), ("\"b\" => 2", Some(1), 2), ("* => 9", None, 9), ("\"a\" => 7", Some(0), 7)] },
+      Fam { name: "bool", define: "{n} := {v}", subjects: vec!["true", "false"], arms: vec![("true => 1", Some(0), 1), ("false => 2", Some(1), 2), ("* => 9", None, 9), ("true => 7", Some(0), 7)] },
+      Fam { name: "u8", define: "{n}<u8> := {v}", subjects: vec!["1", "2", "3"], arms: vec![("1u8 => 1", Some(0), 1), ("2u8 => 2", Some(1), 2), ("* => 9", None, 9), ("1u8 => 7", Some(0), 7)] },
+      Fam { name: "i64", define: "{n}<i64> := {v}", subjects: vec!["1", "2", "3"], arms: vec![("0x1 => 1", Some(0), 1), ("0x2 => 2", Some(1), 2), ("* => 9", None, 9), ("0x1 => 7", Some(0), 7)] },
+    ];
+    for f in &fams {
+      for sel in ordered_selections(f.arms.len(), maxsel.min(3)) {
+        let has_wild = sel.iter().any(|i| f.arms[*i].1.is_none());
+        let body = sel.iter().map(|i| format!("  | {}", f.arms[*i].0)).collect::<Vec<_>>().join("\n");
+        let mut calls = vec![];
+        for (si, subj) in f.subjects.iter().enumerate() {
+          let first = sel.iter().find(|i| f.arms[**i].1.is_none() || f.arms[**i].1 == Some(si)).map(|i| f.arms[*i].2);
+          // without a wildcard the match may be rejected outright; if it is accepted it must give the first matching arm, and with no matching arm it must fail
+          let e = match (first, has_wild) { (Some(v), true) => Expect::Val(f64s(v)), (Some(v), false) => Expect::ValOrError(f64s(v)), (None, _) => Expect::MustError };
+          calls.push((format!("{}\nr@ := w{}?\n{}.", f.define.replace("{n}", &format!("w{}", si)).replace("{v}", subj), si, body), e));
+        }
+        out.push(Case { family: "match-literal-kinds", def: String::new(), calls, locus: format!("match-{}:{}", f.name, sel.iter().map(|i| if f.arms[*i].1.is_none() { "wild".to_string() } else { format!("lit{}", f.arms[*i].2) }).collect::<Vec<_>>().join(",")) });
+      }
+    }
+  }
   // (F) recursion: the recurrence over its whole non-overflowing domain
   let fact: Vec<(String, Expect)> = (0..=20u64).map(|n| (format!("fact({}u64)", n), Expect::Val((1..=n).map(|x| x as u128).product::<u128>().to_string()))).collect();
   out.push(Case { family: "recursion", def: "fact(n<u64>) => <u64>\n  ├ 0u64 => 1u64\n  └ n => n * fact(n - 1u64).".into(), calls: fact, locus: "recursion:factorial".into() });
@@ -353,7 +377,7 @@ impl Check for C16 {
   fn unit_budget(&self, _t: Tier) -> Duration { Duration::from_secs(120) }
   fn drive(&mut self, tier: Tier, cfg: &PoolCfg, rep: &mut Report) {
     let n = self.cases.len() as u64;
-    rep.rule = format!("{} generated definitions: every ordered selection of 1..{} arms from pools of literal / variable / wildcard arms (one argument), tuple patterns incl. a repeated variable and swapped names (two arguments), guarded match arms on scalars, tuple-subject matches that reuse names at different positions with guards, vector patterns (exact, head, tail, literal ends), enum subjects (variant arms in every order with a duplicate arm and a wildcard, as a match expression and as a match-arm function; variants carrying a value with literal, captured and guarded payload patterns), each evaluated over its whole small argument domain incl. wrong arities and matrix broadcast; \
+    rep.rule = format!("{} generated definitions: every ordered selection of 1..{} arms from pools of literal / variable / wildcard arms (one argument), tuple patterns incl. a repeated variable and swapped names (two arguments), guarded match arms on scalars, tuple-subject matches that reuse names at different positions with guards, vector patterns (exact, head, tail, ends, literal ends), literal arms over string / bool / u8 / i64 subjects, enum subjects (variant arms in every order with a duplicate arm and a wildcard, as a match expression and as a match-arm function; variants carrying a value with literal, captured and guarded payload patterns), each evaluated over its whole small argument domain incl. wrong arities and matrix broadcast; \
       recursion families (factorial 0..20, fibonacci, power, gcd, accumulator tail recursion with every named/wildcard pattern combination to depth {}, countdown to depth {}); the reference is a first-match evaluator with binding, repeated-variable equality and guards written in the harness; evaluations = statements; non-trivial = calls with a fixed verdict", n, tier.pick(3, 4), tier.pick(2000, 100000), tier.pick(100000, 1000000));
     rep.assumptions = vec!["a scalar match without a `*` arm but with an unguarded variable arm may be rejected or must give the first-match value; without either it must be rejected".into(), "option/_ coalescing arms and arm-kind diagnostics are not judged".into(), "an enum match without `*` must be rejected unless every variant is named by some arm, whatever the subject; when every variant is named but only through literal or guarded payload patterns, acceptance with the first-match value and rejection are both allowed".into()];
     rep.cov("bounds", json!({"definitions": n}));
